@@ -5,7 +5,7 @@ which check reports the returned defect, and how (deductive obligation / bounded
 import json, os, subprocess, sys, re
 
 MAP = {
-    "781bbc2": ["C18"], "894886a": ["C09"], "179f5f6": ["C20"], "3594c87": ["C04", "C03"], "078c5fc": ["C04"], "17f6bfd": ["C04"], "5c9fa06": ["C14", "C15"],
+    "781bbc2": ["C18"], "894886a": ["C09"], "179f5f6": ["C20"], "3594c87": ["C04", "C03"], "078c5fc": ["C04"], "527e966": ["C15"], "17f6bfd": ["C04"], "5c9fa06": ["C14", "C15"],
     "cb7a3a9": ["C10"], "e443fca": ["C17"], "85e61d9": ["C16"], "959abed": ["C16"], "629c71d": ["C14"], "382b706": ["C05", "C08"],
     "749b724": ["C04"], "a64e98b": ["C04", "C02"], "2d5519c": ["C04"], "69f22ac": ["C02"], "30c2575": ["C02"], "8b06d10": ["C04", "C02"],
     "7235ed8": ["C12"], "ec77ddf": ["C13"], "3549ece": ["C12", "C13"], "52b7b3d": ["C02", "C11"], "3dcf993": ["C02"], "87e716a": ["C02"], "1400d79": ["C02"], "0cb5afd": ["C02"], "3c8b87d": ["C02"],
